@@ -127,7 +127,8 @@ def build_worlds(case):
                 files[pth] = files[pth].replace('\n', '\r\n')
     split = {'files': {**isa, **files}, 'links': links, 'argv': argv, 'cwd': cwd, 'env': {'HOME': '/sim/home'},
              'set_seed': sched.get('set_seed'), 'faults': list(case.get('faults', [])),
-             'dirs': [f'{PDIR}/{d}' for d in dirs], 'step_budget': 4_000_000}
+             'dirs': [f'{PDIR}/{d}' for d in dirs] + [f'{PDIR}/{d}' for d in case.get('extra_dirs', [])],
+             'step_budget': 4_000_000}
     ref_lines = progtree.reference_lines(main) + table
     ref = {'files': {**isa, f'{PDIR}/main.asm': '\n'.join(ref_lines) + '\n'},
            'argv': ['bespokeasm', 'compile', '-c', case['isa_name'], 'main.asm', '-p', '-t', 'intel_hex'],
@@ -349,7 +350,7 @@ def negatives(case, rnd, tg):
         out.append(c)
     # double inclusion where the first inclusion was made by a deeper file that has already finished; the file
     # included twice defines no label, so only the inclusion bookkeeping can reject it
-    for via_sibling in (False, True):
+    for via_sibling in (False, True, 'respelled'):
         c = clone()
         m = c['tree']
         d = rnd.choice(['', 'inc', 'lib/sub'])
@@ -361,14 +362,20 @@ def negatives(case, rnd, tg):
         pos = rnd.randrange(0, len(m['items']) + 1)
         m['items'].insert(pos, {'t': 'inc', 'file': nest})
         again = {'t': 'inc', 'file': {'name': 'tbl.asm', 'dir': d, 'idx': 92, 'items': [], 'dup': True}}
-        if via_sibling:
+        if via_sibling == 'respelled':
+            # the second inclusion names the file with a path component ("./tbl.asm", "inc/../inc/tbl.asm"):
+            # another spelling of a file that has been included already (or no valid include at all) - never accepted
+            sp = rnd.choice(['./tbl.asm', './/tbl.asm', (d + '/../' + d + '/tbl.asm') if d else 'x/../tbl.asm'])
+            m['items'].insert(pos + 1 + rnd.randrange(0, len(m['items']) - pos),
+                              {'t': 'line', 's': f'#include "{sp}"', 'r': ''})
+        elif via_sibling:
             sib = {'name': 'sib.asm', 'dir': '', 'idx': 93,
                    'items': [{'t': 'line', 's': '  .byte $21', 'r': '  .byte $21'}, again]}
             m['items'].insert(pos + 1 + rnd.randrange(0, len(m['items']) - pos), {'t': 'inc', 'file': sib})
         else:
             m['items'].insert(pos + 1 + rnd.randrange(0, len(m['items']) - pos), again)
         c['inc_dirs'] = sorted(set(progtree.include_dirs(m)))
-        c['kind'] = 'neg-double-inclusion-after-nested' + ('-via-sibling' if via_sibling else '')
+        c['kind'] = 'neg-double-inclusion-after-nested' + ({True: '-via-sibling', 'respelled': '-respelled'}.get(via_sibling, ''))
         out.append(c)
     if inc_files:
         # the same NAME in a second search directory, this time as a symbolic link to the first file (same inode):
@@ -380,6 +387,19 @@ def negatives(case, rnd, tg):
         c['extra_links'] = {f'{other}/{inc["name"]}': progtree.relpath(inc)}
         c['inc_dirs'] = progtree.include_dirs(m) + [other]
         c['kind'] = 'neg-ambiguous-name-symlinked-file'
+        out.append(c)
+        # ... and as a directory of that name (or a link to one): the name is still found in two search directories
+        c = clone()
+        m = c['tree']
+        inc = next(it for it in m['items'] if it['t'] == 'inc')['file']
+        other = 'zdir'
+        if rnd.random() < 0.5:
+            c['extra_dirs'] = [f'{other}/{inc["name"]}']
+        else:
+            c['extra_dirs'] = [other, 'zsome/dir']
+            c['extra_links'] = {f'{other}/{inc["name"]}': 'zsome/dir'}
+        c['inc_dirs'] = progtree.include_dirs(m) + [other]
+        c['kind'] = 'neg-ambiguous-name-directory'
         out.append(c)
     # a cycle that re-enters a file protected by an include guard: main -> gb (guarded) -> gc -> gb.  The second
     # inclusion would be empty, but a file included more than once must be rejected all the same
